@@ -19,9 +19,9 @@ static int run(double seconds) {
     dispenso::SPSCRingBuffer<Tracked, CAP, RU> ring;
     auto t0 = std::chrono::steady_clock::now();
     std::thread prod([&]() {
-      uint64_t n = 0; unsigned rnd = 4242;
+      uint64_t n = 0, iters = 0; unsigned rnd = 4242;
       while (true) {
-        if ((n & 255) == 0 && std::chrono::duration<double>(std::chrono::steady_clock::now() - t0).count() > seconds) break;
+        if ((++iters & 255) == 0 && std::chrono::duration<double>(std::chrono::steady_clock::now() - t0).count() > seconds) break;
         rnd = rnd * 1664525u + 1013904223u;
         switch ((rnd >> 16) & 3) {
           case 0: { Tracked t(n); if (ring.try_push(std::move(t))) ++n; break; }
